@@ -5,7 +5,8 @@ Extracts, with Python `ast` and FAIL-CLOSED (any statement or expression that is
   * check_and_correct_bounds : the source refusal (leading `if ...: raise`), the "no range" test, the default ranges,
     the three range tests, the three calls of correct_bounds (axis length, axis number) and the exception raised
   * correct_bounds           : the whole arithmetic, statement by statement, as a `let` chain
-  * regenerate_header        : every `header[a:b] = packer(expr)` in program order: byte range, packer, expression
+  * regenerate_header        : every `header[a:b] = packer(expr)` in program order: guard (an enclosing `if`, else
+    true), byte range, packer, expression
   * write_cropped_file_by_indexes : the layout refusal (if present), the unit counts, the six arguments of
     loader.read_chunk_range, the order "checks, header, chunk read, THEN open(out_file)", the order of the writes, the
     footer reshape, crop window, item size and the padding term of each array
@@ -48,7 +49,8 @@ def zl(n):
 
 AXIS_LEN = {'ilines': '(rd_n_ilines H)', 'xlines': '(rd_n_xlines H)', 'zslices': '(rd_n_samples H)'}
 AXIS_AT = {'ilines': 'crp_ilines_at', 'xlines': 'crp_xlines_at'}
-SELF_INT = {'n_ilines': '(rd_n_ilines H)', 'n_xlines': '(rd_n_xlines H)', 'n_samples': '(rd_n_samples H)'}
+SELF_INT = {'n_ilines': '(rd_n_ilines H)', 'n_xlines': '(rd_n_xlines H)', 'n_samples': '(rd_n_samples H)',
+            'n_header_blocks': '(rd_n_header_blocks H)'}
 BS = ['(rd_blockshape0 H)', '(rd_blockshape1 H)', '(rd_blockshape2 H)']
 BINOPS = {ast.Add: '+', ast.Sub: '-', ast.Mult: '*', ast.FloorDiv: '/', ast.Mod: 'mod'}
 CMPOPS = {ast.Gt: '>?', ast.Lt: '<?', ast.GtE: '>=?', ast.LtE: '<=?', ast.Eq: '=?'}
@@ -438,6 +440,29 @@ def box_env(t):
         t.env[r] = ('P', RV[r])
 
 
+def header_patch(st, t, fn):
+    """header[a:b] = packer(expr)  ->  (a, b, packer, value term)"""
+    tg = st.targets[0]
+    if not (isinstance(tg.value, ast.Name) and tg.value.id == 'header' and isinstance(tg.slice, ast.Slice)
+            and tg.slice.step is None and tg.slice.lower is not None and tg.slice.upper is not None):
+        bad(st, 'header patch target not recognised', fn)
+    lo, hi = t.const(tg.slice.lower), t.const(tg.slice.upper)
+    v = st.value
+    if not (isinstance(v, ast.Call) and not v.keywords):
+        bad(st, 'header patch value not recognised', fn)
+    if isinstance(v.func, ast.Name) and v.func.id in PACKERS and len(v.args) == 1:
+        pk, val = PACKERS[v.func.id], t.z(v.args[0])
+    elif ast.unparse(v.func) == 'struct.pack' and len(v.args) == 2 and isinstance(v.args[0], ast.Constant) \
+            and v.args[0].value in STRUCT_FMT:
+        pk, val = STRUCT_FMT[v.args[0].value], t.z(v.args[1])
+    else:
+        bad(st, 'packer not recognised', fn)
+    width = 2 if pk == 'PkBE16' else 4
+    if hi - lo != width:
+        bad(st, f'a {width}-byte value is assigned to a {hi - lo}-byte slice (the bytearray would change length)', fn)
+    return (lo, hi, pk, val)
+
+
 def gen_header(fd, consts):
     fn = 'regenerate_header'
     if params_of(fd, fn) != ['self'] + RANGES:
@@ -458,35 +483,24 @@ def gen_header(fd, consts):
             lets.append((name, t.z(st.value)))
             t.env[name] = ('Z', name)
         elif isinstance(st, ast.Assign) and len(st.targets) == 1 and isinstance(st.targets[0], ast.Subscript):
-            tg = st.targets[0]
-            if not (base and isinstance(tg.value, ast.Name) and tg.value.id == 'header' and isinstance(tg.slice, ast.Slice)
-                    and tg.slice.step is None and tg.slice.lower is not None and tg.slice.upper is not None):
-                bad(st, 'header patch target not recognised', fn)
-            lo, hi = t.const(tg.slice.lower), t.const(tg.slice.upper)
-            v = st.value
-            if not (isinstance(v, ast.Call) and not v.keywords):
-                bad(st, 'header patch value not recognised', fn)
-            if isinstance(v.func, ast.Name) and v.func.id in PACKERS and len(v.args) == 1:
-                pk, val = PACKERS[v.func.id], t.z(v.args[0])
-            elif ast.unparse(v.func) == 'struct.pack' and len(v.args) == 2 and isinstance(v.args[0], ast.Constant) \
-                    and v.args[0].value in STRUCT_FMT:
-                pk, val = STRUCT_FMT[v.args[0].value], t.z(v.args[1])
-            else:
-                bad(st, 'packer not recognised', fn)
-            width = 2 if pk == 'PkBE16' else 4
-            if hi - lo != width:
-                bad(st, f'a {width}-byte value is assigned to a {hi - lo}-byte slice (the bytearray would change length)', fn)
-            fields.append((lo, hi, pk, val))
+            if not base:
+                bad(st, 'header patch before the copy of the source header', fn)
+            fields.append(('true',) + header_patch(st, t, fn))
+        elif isinstance(st, ast.If) and not st.orelse and len(st.body) == 1 and isinstance(st.body[0], ast.Assign) \
+                and len(st.body[0].targets) == 1 and isinstance(st.body[0].targets[0], ast.Subscript):
+            if not base:
+                bad(st, 'header patch before the copy of the source header', fn)
+            fields.append((t.b(st.test),) + header_patch(st.body[0], t, fn))
         elif isinstance(st, ast.Return) and ast.unparse(st) == 'return header':
             ret = True
         else:
             bad(st, 'statement not recognised', fn)
     if not (base and ret):
         bad(fd, 'skeleton changed', fn)
-    out = f'Definition crp_header_fields (H : hdr) (A : axes) {BOX} : list (Z * Z * packer * Z) :=\n'
+    out = f'Definition crp_header_fields (H : hdr) (A : axes) {BOX} : list (bool * Z * Z * packer * Z) :=\n'
     for n, v in lets:
         out += f'  let {n} := {v} in\n'
-    out += '  [' + ';\n   '.join(f'({lo}, {hi}, {pk}, {val})' for lo, hi, pk, val in fields) + '].\n'
+    out += '  [' + ';\n   '.join(f'({en}, {lo}, {hi}, {pk}, {val})' for en, lo, hi, pk, val in fields) + '].\n'
     return out
 
 
@@ -694,7 +708,7 @@ def generate(srcdir):
     text = PREAMBLE
     text += '(* ---- correct_bounds ---- *)\n' + gen_correct_bounds(cls['correct_bounds'], consts) + '\n'
     text += '(* ---- check_and_correct_bounds ---- *)\n' + gen_check(cls['check_and_correct_bounds'], consts)
-    text += '(* ---- regenerate_header: (first byte, last byte + 1, packer, value) in program order ---- *)\n' + \
+    text += '(* ---- regenerate_header: (executed?, first byte, last byte + 1, packer, value) in program order ---- *)\n' + \
             gen_header(cls['regenerate_header'], consts) + '\n'
     text += '(* ---- write_cropped_file_by_indexes ---- *)\n' + gen_write(cls['write_cropped_file_by_indexes'], consts) + '\n'
     text += gen_coords(cls, consts)
